@@ -42,6 +42,7 @@ where
             let mut svc = svc;
             let mut linger = linger;
             let mut ready_gap = 0u64;
+            let mut call_gap_us = 0u64;
             if linger == Linger::Auto {
                 let habits = w.habits.load(std::sync::atomic::Ordering::Relaxed);
                 linger = Linger::No;
@@ -55,9 +56,13 @@ where
                     if (h >> 4) % 8 == 0 {
                         ready_gap = 1 + (h >> 16) % 3;
                     }
+                    // a call future prepared ahead and driven later (join_all, a batch, a queue)
+                    if (h >> 24) % 10 == 0 {
+                        call_gap_us = [500u64, 3000, 20_000, 150_000][((h >> 32) % 4) as usize];
+                    }
                 }
             }
-            if linger == Linger::No && ready_gap == 0 {
+            if linger == Linger::No && ready_gap == 0 && call_gap_us == 0 {
                 do_call(&w, &mut svc, req, pause, &map).await;
                 return;
             }
@@ -80,6 +85,9 @@ where
             w.log(Ev::Issued { req: id });
             if pause {
                 yield_once().await;
+            }
+            if call_gap_us > 0 {
+                tokio::time::sleep(std::time::Duration::from_micros(call_gap_us)).await;
             }
             w.log(Ev::FirstPoll { req: id });
             let out = (&mut fut).await;
